@@ -4,6 +4,7 @@ import (
 	"bytes"
 	"encoding/json"
 	"fmt"
+	"go/token"
 	"math/rand"
 	"reflect"
 	"strings"
@@ -11,6 +12,8 @@ import (
 
 	"github.com/dave/dst"
 	"github.com/dave/dst/decorator"
+	"github.com/dave/dst/decorator/resolver/goast"
+	"github.com/dave/dst/decorator/resolver/guess"
 )
 
 func init() { register("C06", "model_checking", checkC06) }
@@ -315,6 +318,12 @@ func checkC06(c *Ctx) {
 				c.Eval(fmt.Sprintf("share|fragment-%d|%d|%v", i, k, rec["shared"]), true)
 			}
 		}
+		for _, imports := range []bool{false, true} {
+			for _, rec := range c06SharePairs(fmt.Sprintf("fragment-%d", i), build, imports, r, shares) {
+				out.Add(rec)
+				c.Eval(fmt.Sprintf("share-pair|fragment-%d|%v|%v|%v>%v|%v", i, imports, rec["node"], rec["from"], rec["to"], rec["shared"]), true)
+			}
+		}
 		items[i] = traceItem{Key: fmt.Sprintf("template-fragment-%d", i), Trace: out.Bytes(), Events: out.Len(), Replay: obj{"kind": "c06", "mini": i}}
 		if i%31 == 0 {
 			c.Sample(obj{"fragment": i, "records": out.Len()})
@@ -343,6 +352,25 @@ func checkC06(c *Ctx) {
 			c.Eval("clone|"+f.Path, true)
 		}
 	}
+	// a file decorated with import resolution: identifiers that carry a package path
+	qbuild := func() *dst.File {
+		f, err := decorator.NewDecoratorWithImports(token.NewFileSet(), "example.com/p", goast.New()).Parse(c06Qualified)
+		if err != nil {
+			return nil
+		}
+		return f
+	}
+	if qbuild() == nil {
+		c.Infra("the qualified-identifier source does not decorate")
+		return
+	}
+	qn := map[bool]int{true: 150, false: 1500}[c.Quick()]
+	for _, imports := range []bool{true} { // a tree with package paths can only be restored with import management
+		for _, rec := range c06SharePairs("qualified", qbuild, imports, rand.New(rand.NewSource(c.Seed+7)), qn) {
+			whole.Add(rec)
+			c.Eval(fmt.Sprintf("share-pair|qualified|%v|%v|%v>%v|%v|%v", imports, rec["node"], rec["from"], rec["to"], rec["shared"], rec["qualified"]), true)
+		}
+	}
 	items[n] = traceItem{Key: "corpus-files", Trace: whole.Bytes(), Events: whole.Len(), Replay: obj{"kind": "c06", "mini": -1}}
 	var its []traceItem
 	for _, it := range items {
@@ -354,7 +382,7 @@ func checkC06(c *Ctx) {
 	validateTraces(c, "CloneTrace", cloneTraceCfg, its, 60, false, func(it traceItem, res *TLCResult) {
 		c.Fail(Finding{Sig: "clone-" + res.Violated, Input: it.Key, What: fmt.Sprintf("law %s of CloneTrace.tla fails on %s: %s", res.Violated, it.Key, truncate(c06Explain(it, res), 700)), Replay: it.Replay})
 	})
-	c.Set("rule", "case = Clone of one template fragment (as parsed, and with every decoration point filled) or corpus file: heap export before/after, address disjointness, mutation of either side, print comparison; or a node shared at two list positions vs its clone; all cases non-trivial; distinct by fragment + variant")
+	c.Set("rule", "case = Clone of one template fragment (as parsed, and with every decoration point filled) or corpus file: heap export before/after, address disjointness, mutation of either side, print comparison; or a node shared at two positions (list elements, and any two positions holding the same node type, with the plain and the import-managing restorer, identifiers with a package path included) vs its clone; all cases non-trivial; distinct by fragment + variant")
 }
 
 // c06Explain names the first node whose exports differ.
@@ -376,12 +404,14 @@ func c06Explain(it traceItem, res *TLCResult) string {
 		PrintedSame           bool  `json:"printedSame"`
 		Outcome               string
 		Shared                bool
+		Imports               bool
+		Node, From, To        string
 	}
 	if json.Unmarshal(lines[i], &rec) != nil {
 		return ""
 	}
 	if rec.Ev == "share" {
-		return fmt.Sprintf("shared=%v outcome=%s", rec.Shared, rec.Outcome)
+		return fmt.Sprintf("shared=%v outcome=%s node=%s from=%s to=%s imports=%v", rec.Shared, rec.Outcome, rec.Node, rec.From, rec.To, rec.Imports)
 	}
 	diff := func(a, b ATree, what string) string {
 		for k := range a.Nodes {
@@ -403,4 +433,167 @@ func c06Explain(it traceItem, res *TLCResult) string {
 		return s
 	}
 	return fmt.Sprintf("sharedNodes=%d sharedArrays=%d cloneObjs=%d printedSame=%v", rec.SharedNodes, rec.SharedArrays, rec.CloneObjs, rec.PrintedSame)
+}
+
+// ---- sharing at arbitrary positions, with and without import management ----
+
+// nodePos is one position of a tree that holds a node: field fi of holder (element li of the list, or -1).
+type nodePos struct {
+	holder reflect.Value // the struct value (addressable)
+	fi, li int
+}
+
+func (p nodePos) get() reflect.Value {
+	f := p.holder.Field(p.fi)
+	if p.li >= 0 {
+		return f.Index(p.li)
+	}
+	return f
+}
+
+// positionsOf lists every node position below n by reflection over struct fields (File.Imports and
+// File.Unresolved, which repeat nodes of the tree by design, and Object/Scope links are skipped),
+// together with the set of nodes in the subtree.
+func positionsOf(n dst.Node, out *[]nodePos, seen map[dst.Node]bool) {
+	if n == nil || reflect.ValueOf(n).IsNil() || seen[n] {
+		return
+	}
+	seen[n] = true
+	v := reflect.ValueOf(n).Elem()
+	for i := 0; i < v.NumField(); i++ {
+		name := v.Type().Field(i).Name
+		if name == "Imports" || name == "Unresolved" || name == "Obj" || name == "Scope" || name == "Decs" {
+			continue
+		}
+		fv := v.Field(i)
+		switch {
+		case fv.Kind() == reflect.Slice && fv.Type().Elem().Implements(dstNodeType):
+			for k := 0; k < fv.Len(); k++ {
+				if e := fv.Index(k); !e.IsNil() {
+					*out = append(*out, nodePos{v, i, k})
+					positionsOf(e.Interface().(dst.Node), out, seen)
+				}
+			}
+		case fv.Type().Implements(dstNodeType) && (fv.Kind() == reflect.Ptr || fv.Kind() == reflect.Interface):
+			if !fv.IsNil() {
+				*out = append(*out, nodePos{v, i, -1})
+				positionsOf(fv.Interface().(dst.Node), out, seen)
+			}
+		}
+	}
+}
+
+const c06Qualified = `package p
+
+import (
+	"fmt"
+	"go/token"
+	"os"
+	str "strings"
+)
+
+type T struct {
+	W fmt.Stringer
+	F *os.File
+}
+
+func f(b str.Builder) (fmt.Stringer, error) {
+	fmt.Println("a", os.Args)
+	fmt.Println("b", str.ToUpper("x"))
+	var x fmt.Stringer = T{}.W
+	return x, os.ErrNotExist
+}
+`
+
+// c06SharePairs puts one node at a second position that holds a node of the same concrete type
+// (outside its own subtree) -- or a clone of it -- and restores the file, with the plain restorer
+// or with import management.
+func c06SharePairs(key string, build func() *dst.File, imports bool, r *rand.Rand, n int) []obj {
+	var recs []obj
+	restore := func(f *dst.File) (string, error) {
+		var err error
+		msg := guard(func() {
+			if imports {
+				_, err = decorator.NewRestorerWithImports("example.com/p", guess.New()).RestoreFile(f)
+			} else {
+				_, _, err = decorator.RestoreFile(f)
+			}
+		})
+		return msg, err
+	}
+	for k := 0; k < n; k++ {
+		a, b := r.Int63(), r.Int63()
+		for _, useClone := range []bool{false, true} {
+			f := build()
+			if f == nil {
+				return recs
+			}
+			var ps []nodePos
+			positionsOf(f, &ps, map[dst.Node]bool{})
+			if len(ps) < 2 {
+				return recs
+			}
+			src := ps[int(a%int64(len(ps)))]
+			sn := src.get().Interface().(dst.Node)
+			if _, isFile := sn.(*dst.File); isFile {
+				continue
+			}
+			// with import management the import declarations are rebuilt from the identifiers in use:
+			// a repeated import spec is dropped, not printed twice
+			if _, isImp := sn.(*dst.ImportSpec); imports && (isImp || src.holder.Type().Name() == "ImportSpec") {
+				continue
+			}
+			var sub []nodePos
+			inSub := map[dst.Node]bool{}
+			positionsOf(sn, &sub, inSub)
+			var cands []nodePos
+			for _, p := range ps {
+				cur := p.get().Interface().(dst.Node)
+				holder := p.holder.Addr().Interface().(dst.Node)
+				if imports && p.holder.Type().Name() == "ImportSpec" {
+					continue
+				}
+				if cur == sn || inSub[holder] || inSub[cur] || reflect.TypeOf(cur) != reflect.TypeOf(sn) {
+					continue
+				}
+				// an identifier with a package path is only legal where a reference can stand
+				if si, ok := sn.(*dst.Ident); ok && si.Path != "" && cur.(*dst.Ident).Path == "" {
+					continue
+				}
+				// replacing a node that contains the source would remove the source's first occurrence
+				var cs []nodePos
+				under := map[dst.Node]bool{}
+				positionsOf(cur, &cs, under)
+				if under[sn] {
+					continue
+				}
+				cands = append(cands, p)
+			}
+			if len(cands) == 0 {
+				break
+			}
+			tgt := cands[int(b%int64(len(cands)))]
+			var put dst.Node = sn
+			if useClone {
+				put = dst.Clone(sn)
+			}
+			tgt.get().Set(reflect.ValueOf(put))
+			outcome := "ok"
+			msg, err := restore(f)
+			switch {
+			case strings.Contains(msg, "duplicate node"):
+				outcome = "panic-duplicate"
+			case msg != "":
+				outcome = "other-" + msg
+			case err != nil:
+				outcome = "error-" + err.Error()
+			}
+			id, _ := sn.(*dst.Ident)
+			recs = append(recs, obj{"ev": "share", "shared": !useClone, "outcome": outcome, "fragment": key, "imports": imports,
+				"node": fmt.Sprintf("%T", sn), "qualified": id != nil && id.Path != "",
+				"from": fmt.Sprintf("%s.%s", src.holder.Type().Name(), src.holder.Type().Field(src.fi).Name),
+				"to":   fmt.Sprintf("%s.%s", tgt.holder.Type().Name(), tgt.holder.Type().Field(tgt.fi).Name)})
+		}
+	}
+	return recs
 }
